@@ -48,6 +48,8 @@ structure SDef where
   nops : Nat
   /-- identity of the declaration (source and operation list) as a structural comparison sees it -/
   defId : Nat
+  /-- the names the declaration refers to (sources, sequence / negation step types) -/
+  refs : List Ty := []
   resp : List Ev → Ev → Res
 
 /-! ## Router (`router.rs`) -/
@@ -233,24 +235,34 @@ def load (P : List SDef) : Eng := P.foldl register emptyEng
 
 def sameSet (a b : List Ty) : Bool := a.all b.contains && b.all a.contains
 
+/-- the declaration bound to a name differs between the running engine and the newly compiled one
+(or exists in only one of them) -/
+def declChanged (E N : Eng) (n : Ty) : Bool :=
+  match E.find n, N.find n with
+  | some a, some b => a.defId != b.defId
+  | none, none => false
+  | _, _ => true
+
 /-- `reload`'s change test (after the repair): the declarations are compared structurally, and so are
-the event types the stream is registered for (a declaration can resolve differently when the streams it
-names changed) -/
-def changed (old new : SDef) : Bool := old.defId != new.defId || !sameSet old.subs new.subs
+the event types the stream is registered for and the declarations of the streams it refers to (a
+declaration compiles differently when the streams it names changed: sequence steps and join sources
+resolve through them and inline their filter) -/
+def changed (E N : Eng) (old new : SDef) : Bool :=
+  old.defId != new.defId || !sameSet old.subs new.subs || new.refs.any (declChanged E N)
 
 /-- pre-repair change test: source kind/name and `operations.len()` only -/
-def legacyChanged (old new : SDef) : Bool := old.prim != new.prim || old.isJoin != new.isJoin || old.nops != new.nops
+def legacyChanged (_E _N : Eng) (old new : SDef) : Bool := old.prim != new.prim || old.isJoin != new.isJoin || old.nops != new.nops
 
 /-- the stream a name is bound to after `reload`: kept (old definition and state) iff it existed and
 its declaration did not change, otherwise the freshly compiled one -/
-def reloadPick (chg : SDef → SDef → Bool) (E : Eng) (d' : SDef) : SDef :=
+def reloadPick (chg : Eng → Eng → SDef → SDef → Bool) (E N : Eng) (d' : SDef) : SDef :=
   match E.find d'.name with
-  | some d => if chg d d' then d' else d
+  | some d => if chg E N d d' then d' else d
   | none => d'
 
-def keeps (chg : SDef → SDef → Bool) (E : Eng) (N : Eng) (s : Ty) : Bool :=
+def keeps (chg : Eng → Eng → SDef → SDef → Bool) (E : Eng) (N : Eng) (s : Ty) : Bool :=
   match E.find s, N.find s with
-  | some d, some d' => !chg d d'
+  | some d, some d' => !chg E N d d'
   | _, _ => false
 
 /-- `Engine::reload` (after the repairs): compile the new program in a scratch engine `N`; removed
@@ -258,7 +270,7 @@ streams are dropped, added and changed streams are taken from `N` (fresh state),
 definition and state; the router is the one `N` built. -/
 def reload (E : Eng) (P' : List SDef) : Eng :=
   let N := load P'
-  { streams := N.streams.map (reloadPick changed E)
+  { streams := N.streams.map (reloadPick changed E N)
     router := N.router
     hist := fun s => if keeps changed E N s then E.hist s else [] }
 
@@ -266,7 +278,7 @@ def reload (E : Eng) (P' : List SDef) : Eng :=
 (in the iteration order of the stream map, here: the order of `streams`) -/
 def legacyReload (E : Eng) (P' : List SDef) : Eng :=
   let N := load P'
-  let streams := N.streams.map (reloadPick legacyChanged E)
+  let streams := N.streams.map (reloadPick legacyChanged E N)
   { streams := streams
     router := streams.foldl (fun r d => d.prim.foldl (fun r t => addRoute r t d.name) r) []
     hist := fun s => if keeps legacyChanged E N s then E.hist s else [] }
